@@ -118,6 +118,9 @@ FIXED = [
      "is being logged, no reply"),
     ("C03", "C03/internal:ValueError@spartan.py:handle", "20b197a",
      "Spartan request whose content length has more than 4300 digits: int() raises ValueError, no reply"),
+    ("C04", "C04/request-failed:gopher:plain", "b0f5438",
+     "ZIP handler enabled and a *.zip file that holds an end-of-central-directory record but no readable directory (the last 22 "
+     "bytes of an archive): is_zipfile() says yes, VFSZip() raises BadZipFile, connection closed without a reply in every protocol"),
     ("C16", "C16/differs:dir:menu-vs-any:gopher", "80ca1cd",
      "a gophermap inside an archive linking a member directory with a trailing slash ('1Docs<TAB>docs/'): the sidecar look-up "
      "'docs//.abstract' succeeds on disk and fails in the archive, so the directory's abstract/keywords blocks are lost there"),
